@@ -150,6 +150,9 @@ func cmdRun(args []string) int {
 	if w.Thorough {
 		cfg.QueryMs, cfg.FallbackMs = 10000, 120000
 	}
+	if cd.QueryMs > 0 {
+		cfg.QueryMs = cd.QueryMs
+	}
 	budget := cd.QuickBudget
 	if w.Thorough {
 		budget = cd.ThoroughBudget
